@@ -16,36 +16,58 @@ Local Open Scope N_scope.
 
 (* o_owner: ownership defects found in the staged queues (elements given back to the pool while still queued, elements
    or buffers referenced twice) *)
-Record obs := { o_counts : vec; o_selems : N; o_sconts : N; o_owner : N }.
+(* o_lost: what rests in the autodraining inbound / outbound queues of the configured peers (hook) *)
+Record obs := { o_counts : vec; o_selems : N; o_sconts : N; o_owner : N; o_lost : vec }.
 
 Definition baseline (c : cfg) (up closed : bool) : vec :=
   if closed then vzero else vadd (vout (dev_batch c) 0) (if up then vbuf (recv_bufs c) else vzero).
 
-Record sp := { x_up : bool; x_closed : bool }.
-Definition sp_init : sp := {| x_up := false; x_closed := false |}.
-Definition sp_event (x : sp) (e : ev) : sp :=
-  if x_closed x then x else
+(* up / closed follow the events; sp_prev = what was last seen resting in the autodraining queues of configured peers;
+   sp_garb = what disappeared from view together with removed peers (or at Close) and has not been garbage-collected *)
+Record sp := { x_up : bool; x_closed : bool; sp_prev : vec; sp_garb : vec }.
+Definition sp_init : sp := {| x_up := false; x_closed := false; sp_prev := vzero; sp_garb := vzero |}.
+
+Definition sp_garbage (x : sp) (e : ev) (b : obs) : vec :=
   match e with
-  | EUp => {| x_up := true; x_closed := false |}
-  | EDown => {| x_up := false; x_closed := false |}
-  | EClose => {| x_up := false; x_closed := true |}
-  | EFatalRead => {| x_up := false; x_closed := true |}
-  | _ => x
+  | EGC => vzero
+  | ERemovePeer _ | ERemoveAll | EClose | EFatalRead =>
+      if x_closed x then sp_garb x else vadd (sp_garb x) (vsub (sp_prev x) (o_lost b))
+  | _ => sp_garb x
+  end.
+
+Definition sp_event (x : sp) (e : ev) (b : obs) : sp :=
+  let g := sp_garbage x e b in
+  if x_closed x then {| x_up := x_up x; x_closed := true; sp_prev := o_lost b; sp_garb := g |} else
+  match e with
+  | EUp => {| x_up := true; x_closed := false; sp_prev := o_lost b; sp_garb := g |}
+  | EDown => {| x_up := false; x_closed := false; sp_prev := o_lost b; sp_garb := g |}
+  | EClose => {| x_up := false; x_closed := true; sp_prev := o_lost b; sp_garb := g |}
+  | EFatalRead => {| x_up := false; x_closed := true; sp_prev := o_lost b; sp_garb := g |}
+  | _ => {| x_up := x_up x; x_closed := x_closed x; sp_prev := o_lost b; sp_garb := g |}
   end.
 
 Definition expected (c : cfg) (x : sp) (b : obs) : vec :=
-  if x_closed x then vzero else vadd (baseline c (x_up x) false) (vout (o_selems b) (o_sconts b)).
+  if x_closed x then sp_garb x
+  else vadd (vadd (baseline c (x_up x) false) (vout (o_selems b) (o_sconts b))) (vadd (o_lost b) (sp_garb x)).
 
-(* verdicts: 6 = a queued element is owned twice (or was given back while queued); pools whose count differs: 1 inbound containers, 2 outbound containers, 3 message buffers,
+(* verdicts: 7 = packets are held in a staged queue while the interface is down (Down flushes the staged queues and a
+   peer is not started while the interface is down, so nothing may be retained there); 6 = a queued element is owned twice (or was given back while queued); pools whose count differs: 1 inbound containers, 2 outbound containers, 3 message buffers,
    4 inbound elements, 5 outbound elements *)
 Definition vdiff (a b : vec) : list N :=
   (if inC a =? inC b then [] else [1]) ++ (if outC a =? outC b then [] else [2]) ++
   (if buf a =? buf b then [] else [3]) ++ (if inE a =? inE b then [] else [4]) ++
   (if outE a =? outE b then [] else [5]).
 
+(* a harness action that consists of several events whose intermediate states cannot be read (the device holds its
+   peer-map lock in between) records the FINAL observation for each of them and marks all but the last: no verdict, no
+   comparison with the model on marked steps *)
+Definition unobserved (b : obs) : bool := o_owner b =? 4294967295.
+
 Definition sp_step (c : cfg) (x : sp) (eb : ev * obs) : sp * list N :=
-  let x1 := sp_event x (fst eb) in
-  (x1, vdiff (expected c x1 (snd eb)) (o_counts (snd eb)) ++ (if o_owner (snd eb) =? 0 then [] else [6])).
+  let x1 := sp_event x (fst eb) (snd eb) in
+  (x1, if unobserved (snd eb) then [] else
+       vdiff (expected c x1 (snd eb)) (o_counts (snd eb)) ++ (if o_owner (snd eb) =? 0 then [] else [6]) ++
+       (if negb (x_up x1) && negb (x_closed x1) && negb (o_selems (snd eb) =? 0) then [7] else [])).
 
 Definition verdicts (c : cfg) (tr : list (ev * obs)) : list (list N) := outs (sp_step c) sp_init tr.
 Definition holdsb (c : cfg) (tr : list (ev * obs)) : bool :=
@@ -55,12 +77,13 @@ Definition holdsb (c : cfg) (tr : list (ev * obs)) : bool :=
 Definition resting (ps : list peer) : vec := fold_right (fun q v => vadd (vstaged (q_staged q)) v) vzero ps.
 Definition base_of (s : state) : vec := baseline (s_cfg s) (s_up s) (s_closed s).
 
-Definition observe (s : state) : obs :=
-  {| o_counts := outstanding s; o_selems := buf (resting (s_peers s)); o_sconts := outC (resting (s_peers s));
-     o_owner := 0 |}.
+Definition observe (x : xstate) : obs :=
+  let s := x_s x in
+  {| o_counts := xoutstanding x; o_selems := buf (resting (s_peers s)); o_sconts := outC (resting (s_peers s));
+     o_owner := 0; o_lost := lsum (x_lost x) |}.
 
-Fixpoint model_trace (s : state) (evs : list ev) : list (ev * obs) :=
+Fixpoint model_trace (x : xstate) (evs : list ev) : list (ev * obs) :=
   match evs with
   | [] => []
-  | e :: r => let s1 := step_state s e in (e, observe s1) :: model_trace s1 r
+  | e :: r => let x1 := xstep_state x e in (e, observe x1) :: model_trace x1 r
   end.
